@@ -749,7 +749,7 @@ fn emit_conversions(shape: &Shape, o: &mut String) {
     }
 }
 
-const PRELUDE: &str = "    #![allow(non_camel_case_types, dead_code, unused_imports, clippy::all)]\n    use savefile::prelude::*;\n    use savefile_derive::{Savefile, savefile_abi_exportable};\n    use savefile_abi::{AbiConnection, AbiExportable};\n    use crate::support::*;\n";
+const PRELUDE: &str = "    #![allow(non_camel_case_types, dead_code, unused_imports, clippy::all)]\n    use savefile::prelude::*;\n    use savefile::ValueConstructor;\n    use savefile_derive::{Savefile, savefile_abi_exportable};\n    use savefile_abi::{AbiConnection, AbiExportable};\n    use crate::support::*;\n";
 
 fn emit_trait(depth: u32, o: &mut String) {
     writeln!(o, "    #[savefile_abi_exportable(version = {})]\n    pub trait Iface {{", depth).unwrap();
